@@ -156,9 +156,76 @@ fn big_index(seed: u64, report: &mut Report) {
     }
 }
 
+/// Directed: archive FILES of several MiB (the tool's default options: 20 MiB blocks, 1 MiB small-file cap) —
+/// incompressible data, so that single block files exceed 2 MiB on disk.  Real code + an independent reader
+/// working on the raw files (no hex state, no model).
+fn big_blocks(seed: u64, report: &mut Report) {
+    let work = tempfile::tempdir().unwrap();
+    let src = work.path().join("src");
+    std::fs::create_dir(&src).unwrap();
+    let mut x = seed | 1;
+    let mut noise = |n: usize| -> Vec<u8> { (0..n).map(|_| { x ^= x << 13; x ^= x >> 7; x ^= x << 17; (x >> 24) as u8 }).collect() };
+    let mib = 1usize << 20;
+    let files: Vec<(&str, Vec<u8>)> = vec![("a-small", b"hello".to_vec()), ("b-noise-3m", noise(3 * mib)), ("c-zeros-6m", vec![0u8; 6 * mib]), ("d-noise-2m-1", noise(2 * mib - 1)), ("e-noise-1m5", noise(mib + mib / 2))];
+    for (n, b) in &files {
+        std::fs::write(src.join(n), b).unwrap();
+    }
+    let arch = work.path().join("arch");
+    crate::real::create_archive(&arch);
+    let p = crate::real::BackupParams { max_entries_per_hunk: 100_000, max_block_size: 20 << 20, small_file_cap: 1 << 20, owner: true, exclude: vec![] };
+    let r = crate::real::real_backup(&arch, &src, &p, crate::icept::IceptConfig::default());
+    let case = json!({"directed": "big-blocks", "files": files.iter().map(|(n, b)| json!({"name": n, "len": b.len()})).collect::<Vec<_>>(), "options": "the tool's defaults"});
+    report.case("big-blocks", true);
+    report.hit("directed:big-blocks(files > 2 MiB on disk)");
+    if !r.result.starts_with("result ok") || !r.result.contains(" errors=0") {
+        report.oracle_fail("format:big-blocks-backup-failed", case, "a backup of files of a few MiB did not succeed", json!(crate::compare::trunc(&r.result)));
+        return;
+    }
+    // every block: decompresses, and is stored under and named by the BLAKE2b hash of its content
+    let mut blocks: BTreeMap<String, Vec<u8>> = BTreeMap::new();
+    for sub in std::fs::read_dir(arch.join("d")).unwrap().flatten() {
+        for f in std::fs::read_dir(sub.path()).unwrap().flatten() {
+            let name = f.file_name().to_string_lossy().to_string();
+            let raw = std::fs::read(f.path()).unwrap();
+            match snap::raw::Decoder::new().decompress_vec(&raw) {
+                Err(e) => report.oracle_fail("format:block-undecodable", case.clone(), "a block file written by a successful backup does not decompress", json!({"block": name, "bytes_on_disk": raw.len(), "error": e.to_string()})),
+                Ok(content) => {
+                    if blake_hex(&content) != name || !name.starts_with(&sub.file_name().to_string_lossy().to_string()) {
+                        report.oracle_fail("format:block-misnamed", case.clone(), "a block is not named by / stored under the hash of its content", json!({"block": name}));
+                    }
+                    blocks.insert(name, content);
+                }
+            }
+        }
+    }
+    // every file entry: addresses inside their blocks, lengths summing to the size, content equal to the source
+    let hunk = arch.join("b0000/i/00000/000000000");
+    let Some(entries) = std::fs::read(&hunk).ok().and_then(|b| crate::absarch::decode_hunk(&b)) else {
+        report.oracle_fail("format:undecodable-hunk", case, "the index hunk of the big-blocks backup does not decode", json!(null));
+        return;
+    };
+    for e in entries.iter().filter(|e| crate::absarch::kind_char(e.kind) == 'f') {
+        let want = files.iter().find(|(n, _)| format!("/{n}") == e.apath).map(|(_, b)| b.clone()).unwrap_or_default();
+        let mut got: Vec<u8> = Vec::new();
+        let mut ok = true;
+        for a in &e.addrs {
+            match blocks.get(&a.hash) {
+                Some(c) if (a.start + a.len) as usize <= c.len() => got.extend_from_slice(&c[a.start as usize..(a.start + a.len) as usize]),
+                _ => ok = false,
+            }
+        }
+        if !ok {
+            report.oracle_fail("format:address-outside-block", case.clone(), "an address of a recorded file does not lie inside a readable block", json!({"apath": e.apath}));
+        } else if got != want {
+            report.oracle_fail("format:content-differs", case.clone(), "the bytes a recorded file's addresses select are not the file's content", json!({"apath": e.apath, "len": got.len(), "expected_len": want.len()}));
+        }
+    }
+}
+
 pub fn run(tier: &str, seed: u64, report: &mut Report) {
     let thorough = tier == "thorough";
     big_index(seed, report);
+    big_blocks(seed, report);
     let n_hist = if thorough { 300 } else { 25 };
     for h in 0..n_hist {
         let case_seed = seed.wrapping_mul(433494437).wrapping_add(h as u64);
